@@ -42,3 +42,735 @@ def _c01_order(seed, tier):
         for c2 in variants:
             for u in worlds.uri_pool(c1):
                 yield {"c1": c1, "c2": c2, "u": u}
+
+
+# ---------------------------------------------------------------------------------------------
+# record collections (possibly clashing) for C04
+# ---------------------------------------------------------------------------------------------
+def _rec(spec_):
+    from curies.api import Record
+    p, u, ps, us = spec_[:4]
+    pat = spec_[4] if len(spec_) > 4 else None
+    return Record(prefix=p, uri_prefix=u, prefix_synonyms=list(ps), uri_prefix_synonyms=list(us), pattern=pat)
+
+
+def record_spec_lists(seed, n):
+    """Lists of 0-3 record specs over a tiny pool: many clash (canonical/synonym, either side, both)."""
+    rng = random.Random(seed)
+    P = ["a", "b", "A", ""]
+    Uu = ["u/", "v/", "u/a", ""]
+    curated = [
+        [],
+        [("a", "u/", [], [])],
+        [("a", "u/", [], []), ("a", "v/", [], [])],
+        [("a", "u/", [], []), ("b", "u/", [], [])],
+        [("a", "u/", ["b"], []), ("b", "v/", [], [])],
+        [("a", "u/", ["c"], []), ("b", "v/", ["c"], [])],
+        [("a", "u/", [], ["w/"]), ("b", "v/", [], ["w/"])],
+        [("a", "u/", [], ["v/"]), ("b", "v/", [], [])],
+        [("a", "u/", ["b"], ["v/"]), ("b", "v/", [], [])],
+        [("a", "u/", ["A", "A"], ["w/", "w/"])],
+        [("b", "u/", [], []), ("a", "v/", [], []), ("c", "w/", ["a"], [])],
+        [("a", "u/", [], []), ("b", "v/", [], []), ("c", "w/", [], ["u/"])],
+    ]
+    for c in curated:
+        yield c
+    for _ in range(n):
+        k = rng.choice([1, 2, 2, 3])
+        out = []
+        for _ in range(k):
+            p, u = rng.choice(P), rng.choice(Uu)
+            ps = [x for x in rng.sample(P, rng.choice([0, 0, 1])) if x != p]
+            us = [x for x in rng.sample(Uu, rng.choice([0, 0, 1])) if x != u]
+            out.append((p, u, ps, us))
+        yield out
+
+
+def _records_domain(seed, tier):
+    for specs in record_spec_lists(seed, 150 if tier == "quick" else 1500):
+        yield {"records": [_rec(s) for s in specs]}
+
+
+for _q in ("api._get_duplicate_uri_prefixes", "api._get_duplicate_prefixes", "api._get_prefix_map", "api._get_prefix_synmap",
+           "api._get_reverse_prefix_map", "api._get_pattern_map"):
+    DOMAINS[_q] = _records_domain
+
+
+@domain("api.Converter.__init__")
+def _init_cases(seed, tier):
+    from curies.api import Converter
+    for specs in record_spec_lists(seed, 150 if tier == "quick" else 1500):
+        for strict in (True, False):
+            for d in (":", "/"):
+                yield {"self": Converter.__new__(Converter), "records": [_rec(s) for s in specs], "delimiter": d, "strict": strict}
+
+
+@domain("C04.record_validators")
+def _validators(seed, tier):
+    pool = ["a", "b", ""]
+    lists = [[], ["a"], ["b"], ["a", "b"], [""], ["a", "a"]]
+    for p in pool:
+        for u in pool:
+            for ps in lists:
+                for us in lists:
+                    yield {"p": p, "u": u, "ps": list(ps), "us": list(us)}
+
+
+@domain("C04.strict_iff")
+def _strict_iff(seed, tier):
+    for specs in record_spec_lists(seed, 200 if tier == "quick" else 2000):
+        if any(s[0] in s[2] or s[1] in s[3] for s in specs):
+            continue
+        for d in (":", "/"):
+            yield {"specs": specs, "delimiter": d}
+
+
+@domain("api._eq")
+def _eq_cases(seed, tier):
+    pool = ["a", "A", "ab", "", "ß", "ss", "SS", "é", "É"]
+    for a in pool:
+        for b in pool:
+            for cs in (True, False):
+                yield {"a": a, "b": b, "case_sensitive": cs}
+
+
+@domain("api._in")
+def _in_cases(seed, tier):
+    pool = ["a", "A", "", "ß", "SS"]
+    for a in pool:
+        for bs in ([], ["a"], ["A", "b"], ["ss"], ["", "x"]):
+            for cs in (True, False):
+                yield {"a": a, "bs": list(bs), "case_sensitive": cs}
+
+
+def _overlapping_specs(c, rng, n):
+    """Record specs that are fresh / overlap c on the CURIE side, the URI side, both, or only up to case."""
+    names = [p for r in c.records for p in [r.prefix] + list(r.prefix_synonyms)] or ["a"]
+    unames = [u for r in c.records for u in [r.uri_prefix] + list(r.uri_prefix_synonyms)] or ["u/"]
+    def vary(x):
+        return rng.choice([x, x.upper(), x.lower(), x + "x", "new" + x])
+    for _ in range(n):
+        p = vary(rng.choice(names + ["zz"]))
+        u = vary(rng.choice(unames + ["z/"]))
+        ps = [vary(rng.choice(names + ["yy"])) for _ in range(rng.choice([0, 0, 1, 2]))]
+        us = [vary(rng.choice(unames + ["y/"])) for _ in range(rng.choice([0, 0, 1, 2]))]
+        ps = sorted({x for x in ps if x != p})
+        us = sorted({x for x in us if x != u})
+        yield (p, u, ps, us, rng.choice([None, None, "^x$"]))
+
+
+@domain("api.Converter._match_record")
+def _match_cases(seed, tier):
+    rng = random.Random(seed)
+    for c in worlds.converters(20 if tier == "quick" else 100, seed):
+        for s in _overlapping_specs(c, rng, 12):
+            for cs in (True, False):
+                yield {"self": c, "external": _rec(s), "case_sensitive": cs}
+
+
+@domain("api.Converter._merge")
+def _merge_cases(seed, tier):
+    rng = random.Random(seed)
+    for c in worlds.converters(20 if tier == "quick" else 100, seed):
+        for into in c.records:
+            for s in _overlapping_specs(c, rng, 6):
+                yield {"record": _rec(s), "into": into.model_copy(deep=True)}
+
+
+@domain("api.Converter._index")
+def _index_cases(seed, tier):
+    rng = random.Random(seed)
+    for c in worlds.converters(20 if tier == "quick" else 100, seed):
+        for s in _overlapping_specs(c, rng, 6):
+            c2 = worlds.make_converter(worlds.describe_converter(c)["records"], c.delimiter)
+            r = _rec(s)
+            c2.records.append(r)
+            yield {"self": c2, "record": r}
+        for i in range(len(c.records)):
+            c2 = worlds.make_converter(worlds.describe_converter(c)["records"], c.delimiter)
+            yield {"self": c2, "record": c2.records[i]}
+
+
+@domain("api.Converter.add_record")
+def _add_record_cases(seed, tier):
+    rng = random.Random(seed)
+    for c in worlds.converters(25 if tier == "quick" else 150, seed):
+        spec0 = worlds.describe_converter(c)
+        for s in _overlapping_specs(c, rng, 10):
+            for cs in (True, False):
+                for merge in (True, False):
+                    c2 = worlds.make_converter(spec0["records"], spec0["delimiter"])
+                    yield {"self": c2, "record": _rec(s), "case_sensitive": cs, "merge": merge}
+
+
+@domain("api.Converter.add_prefix")
+def _add_prefix_cases(seed, tier):
+    rng = random.Random(seed)
+    for c in worlds.converters(25 if tier == "quick" else 150, seed):
+        spec0 = worlds.describe_converter(c)
+        extra = [("a", "u/", ["a"], []), ("n", "n/", [], ["n/"])]
+        for s in list(_overlapping_specs(c, rng, 8)) + extra:
+            for cs in (True, False):
+                for merge in (True, False):
+                    c2 = worlds.make_converter(spec0["records"], spec0["delimiter"])
+                    yield {"self": c2, "prefix": s[0], "uri_prefix": s[1], "prefix_synonyms": list(s[2]) or None,
+                           "uri_prefix_synonyms": list(s[3]) or None, "case_sensitive": cs, "merge": merge}
+
+
+PROBE_KINDS = ["compress", "parse_uri", "expand", "expand_all", "std_prefix", "std_uri", "expand_pair", "expand_pair_all", "get_record", "is_curie"]
+
+
+@domain("C05.history_equals_fresh")
+def _history_cases(seed, tier):
+    rng = random.Random(seed)
+    for c in worlds.converters(25 if tier == "quick" else 120, seed):
+        spec0 = worlds.describe_converter(c)
+        for _ in range(4 if tier == "quick" else 10):
+            c2 = worlds.make_converter(spec0["records"], spec0["delimiter"])
+            specs = list(_overlapping_specs(c, rng, 3))
+            ops = [(rng.choice(["add_record", "add_prefix"]), s, rng.choice([True, False]), rng.choice([True, True, False])) for s in specs]
+            d = c.delimiter
+            probes = []
+            for s in specs:
+                for u in [s[1]] + list(s[3]):
+                    probes += [("compress", u + "1"), ("parse_uri", u + "x"), ("std_uri", u + "1")]
+                for p in [s[0]] + list(s[2]):
+                    probes += [("expand", p + d + "1"), ("expand_all", p + d + "1"), ("std_prefix", p), ("expand_pair", p),
+                               ("expand_pair_all", p), ("get_record", p), ("is_curie", p + d + "1")]
+            for u in worlds.uri_pool(c)[:8]:
+                probes.append(("compress", u))
+            yield {"conv": c2, "ops": ops, "probes": probes}
+
+
+@domain("api.chain")
+def _chain_cases(seed, tier):
+    rng = random.Random(seed)
+    specs = worlds.converter_specs(20 if tier == "quick" else 120, seed)
+    specs = [(s, d) for s, d in specs if d == ":"]
+    def mk(i):
+        s, d = specs[i]
+        try:
+            return worlds.make_converter(s, d)
+        except Exception:
+            return None
+    yield {"converters": [], "case_sensitive": True}
+    n = 120 if tier == "quick" else 1200
+    for _ in range(n):
+        k = rng.choice([1, 2, 2, 3])
+        cs = [mk(rng.randrange(len(specs))) for _ in range(k)]
+        if any(c is None for c in cs):
+            continue
+        # variants that overlap only up to case / on synonyms
+        if rng.random() < 0.5 and cs[0].records:
+            r = cs[0].records[0]
+            try:
+                cs.append(worlds.make_converter([(r.prefix.upper() if r.prefix.upper() != r.prefix else r.prefix + "2", r.uri_prefix + "x/",
+                                                  [r.prefix + "_syn"], [r.uri_prefix.upper() + "y/"], None)], ":"))
+            except Exception:
+                pass
+        for flag in (True, False):
+            yield {"converters": [worlds.make_converter(worlds.describe_converter(c)["records"], c.delimiter) for c in cs], "case_sensitive": flag}
+
+
+@domain("api.Converter.get_subconverter")
+def _subconv_cases(seed, tier):
+    rng = random.Random(seed)
+    for c in worlds.converters(30 if tier == "quick" else 200, seed):
+        names = worlds.prefix_pool(c)
+        for _ in range(6):
+            k = rng.choice([0, 1, 2, 3])
+            yield {"self": c, "prefixes": rng.sample(names, min(k, len(names)))}
+
+
+@domain("C09.chain_single_is_identity")
+def _chain_single(seed, tier):
+    for c in worlds.converters(40 if tier == "quick" else 300, seed):
+        yield {"conv": c, "s": "", "p": ""}
+
+
+@domain("C10.derived_mutation_does_not_leak")
+def _leak_cases(seed, tier):
+    rng = random.Random(seed)
+    for c in worlds.converters(30 if tier == "quick" else 200, seed):
+        names = worlds.prefix_pool(c)
+        for s in _overlapping_specs(c, rng, 4):
+            yield {"conv": c, "prefixes": rng.sample(names, min(2, len(names))), "extra": s}
+
+
+@domain("C04.bimaps_inverse")
+def _bimaps(seed, tier):
+    for c in worlds.converters(40 if tier == "quick" else 300, seed):
+        for p in worlds.prefix_pool(c):
+            for u in worlds.uri_pool(c)[:6]:
+                yield {"conv": c, "p": p, "u": u}
+
+
+# ---------------------------------------------------------------------------------------------
+# reconciliation
+# ---------------------------------------------------------------------------------------------
+def _remappings(names, rng, n, unknown):
+    """Dicts over known names and unknown strings incl. chains, swaps, maps onto existing names."""
+    names = list(names)
+    pool = names + list(unknown)
+    out = [{}]
+    if names:
+        a = names[0]
+        out += [{a: "new"}, {a: a}, {"zz": a}, {a: "x", "q": a}]
+    if len(names) >= 2:
+        a, b = names[0], names[1]
+        out += [{a: b}, {a: b, b: a}, {a: b, b: "c9"}, {a: "n1", b: "n1"}, {a: "n1", b: "n2"}, {b: "x", "q": b}]
+    for _ in range(n):
+        k = rng.choice([1, 1, 2, 3])
+        keys = rng.sample(pool, min(k, len(pool)))
+        out.append({key: rng.choice(pool + ["n1", "n2"]) for key in keys})
+    return out
+
+
+@domain("reconciliation._order_curie_remapping")
+def _order_cases(seed, tier):
+    rng = random.Random(seed)
+    for c in worlds.converters(25 if tier == "quick" else 150, seed):
+        names = [p for r in c.records for p in [r.prefix] + list(r.prefix_synonyms)]
+        for m in _remappings(names, rng, 8, ["zz", "q"]):
+            yield {"converter": c, "curie_remapping": m}
+
+
+@domain("reconciliation.remap_curie_prefixes")
+def _remap_curie_cases(seed, tier):
+    rng = random.Random(seed)
+    for c in worlds.converters(25 if tier == "quick" else 150, seed):
+        names = [p for r in c.records for p in [r.prefix] + list(r.prefix_synonyms)]
+        for m in _remappings(names, rng, 8, ["zz", "q"]):
+            yield {"converter": c, "remapping": m}
+
+
+@domain("reconciliation.remap_uri_prefixes")
+def _remap_uri_cases(seed, tier):
+    rng = random.Random(seed)
+    for c in worlds.converters(25 if tier == "quick" else 150, seed):
+        names = [u for r in c.records for u in [r.uri_prefix] + list(r.uri_prefix_synonyms)]
+        for m in _remappings(names, rng, 8, ["z/", "q/"]):
+            yield {"converter": c, "remapping": m}
+
+
+@domain("reconciliation.rewire")
+def _rewire_cases(seed, tier):
+    rng = random.Random(seed)
+    for c in worlds.converters(25 if tier == "quick" else 150, seed):
+        names = [p for r in c.records for p in [r.prefix] + list(r.prefix_synonyms)]
+        unames = [u for r in c.records for u in [r.uri_prefix] + list(r.uri_prefix_synonyms)]
+        for _ in range(10):
+            keys = rng.sample(names + ["zz"], min(rng.choice([1, 1, 2]), len(names) + 1))
+            yield {"converter": c, "rewiring": {k: rng.choice(unames + ["n1/", "n2/"]) for k in keys}}
+
+
+def _record_upgrade_cases(side):
+    def gen(seed, tier):
+        rng = random.Random(seed)
+        for c in worlds.converters(15 if tier == "quick" else 60, seed):
+            for r in c.records:
+                names = ([r.prefix] + list(r.prefix_synonyms)) if side == "curie" else ([r.uri_prefix] + list(r.uri_prefix_synonyms))
+                for _ in range(5):
+                    keys = rng.sample(names + ["zz"], min(rng.choice([0, 1, 2]), len(names) + 1))
+                    yield {"record": r, "upgrades": {k: "new-" + k for k in keys}}
+    return gen
+
+
+DOMAINS["reconciliation._get_uri_preferred_or_synonym"] = _record_upgrade_cases("uri")
+DOMAINS["reconciliation._get_curie_preferred_or_synonym"] = _record_upgrade_cases("curie")
+
+
+def _rewire_lemma(seed, tier):
+    for case in _rewire_cases(seed, tier):
+        yield {"conv": case["converter"], "rewiring": case["rewiring"]}
+
+
+DOMAINS["C12.rewire_idempotent"] = _rewire_lemma
+DOMAINS["C12.rewire_unknown_adds_nothing"] = _rewire_lemma
+
+
+@domain("C10.reconciliation_does_not_leak")
+def _recon_leak(seed, tier):
+    rng = random.Random(seed)
+    for c in worlds.converters(25 if tier == "quick" else 150, seed):
+        names = [p for r in c.records for p in [r.prefix] + list(r.prefix_synonyms)]
+        unames = [u for r in c.records for u in [r.uri_prefix] + list(r.uri_prefix_synonyms)]
+        for m in _remappings(names, rng, 3, ["zz"])[:8]:
+            um = {k: "n-" + k for k in rng.sample(unames + ["z/"], min(2, len(unames) + 1))}
+            for s in _overlapping_specs(c, rng, 2):
+                yield {"conv": c, "cmap": m, "umap": um, "extra": s}
+
+
+# ---------------------------------------------------------------------------------------------
+# w3c / discovery
+# ---------------------------------------------------------------------------------------------
+W3C_ALPHABET = ["a", "1", "_", ".", "-", ":", "/", "#", " ", "\t", "\n", "[", "]", "é", "Z"]
+
+
+def _w3c_strings(seed, tier):
+    n = 3 if tier == "quick" else 4
+    for k in range(0, n + 1):
+        for tup in itertools.product(W3C_ALPHABET, repeat=k):
+            yield "".join(tup)
+    rng = random.Random(seed)
+    for _ in range(300 if tier == "quick" else 3000):
+        yield "".join(rng.choice(W3C_ALPHABET + ["a", "b", "GO", "0"]) for _ in range(rng.randint(5, 12)))
+
+
+DOMAINS["w3c.is_w3c_prefix"] = lambda seed, tier: ({"prefix": s} for s in _w3c_strings(seed, tier))
+DOMAINS["w3c._is_w3c_luid"] = lambda seed, tier: ({"luid": s} for s in _w3c_strings(seed, tier))
+DOMAINS["w3c.is_w3c_curie"] = lambda seed, tier: ({"curie": s} for s in _w3c_strings(seed, tier))
+
+
+def _uri_lists(rng, n):
+    bases = ["http://x/", "http://x/a_", "http://x#", "http://y/b/", "x", "http://x/a_b/", "https://github.com/a/b/issues/", "http://z::", "aXb"]
+    tails = ["1", "12", "ab", "a_b", "", "a-b", "9", "é", "a/b", "x#y"]
+    for _ in range(n):
+        k = rng.choice([0, 1, 2, 3, 4, 6])
+        yield [rng.choice(bases) + rng.choice(tails) for _ in range(k)]
+
+
+def _disc_convs(seed):
+    out = [None]
+    for c in worlds.converters(0, seed):
+        out.append(c)
+    try:
+        out.append(worlds.make_converter([("k", "http://x/", [], ["http://y/b/"], None)], ":"))
+    except Exception:
+        pass
+    return out
+
+
+@domain("discovery.discover")
+def _discover_cases(seed, tier):
+    rng = random.Random(seed)
+    convs = _disc_convs(seed)
+    for uris in _uri_lists(rng, 150 if tier == "quick" else 1500):
+        yield {"uris": uris, "delimiters": rng.choice([None, None, ["/"], ["_", "/"], ["::", "/"], ["X", "#"]]),
+               "cutoff": rng.choice([None, None, 1, 2, 3]), "metaprefix": rng.choice(["ns", "", "p_"]), "converter": rng.choice(convs)}
+
+
+@domain("discovery._get_uri_prefix_to_luids")
+def _luids_cases(seed, tier):
+    for case in _discover_cases(seed, tier):
+        yield {"converter": case["converter"], "uris": case["uris"], "delimiters": case["delimiters"]}
+
+
+@domain("C19.function_of_the_set")
+def _c19_set(seed, tier):
+    rng = random.Random(seed)
+    convs = _disc_convs(seed)
+    for uris in _uri_lists(rng, 150 if tier == "quick" else 1500):
+        perm = list(uris) + [rng.choice(uris) for _ in range(rng.choice([0, 1, 2]))] if uris else []
+        rng.shuffle(perm)
+        yield {"uris": uris, "perm": perm, "delimiters": rng.choice([[], [], ["/"], ["_", "/"]]), "cutoff": rng.choice([None, 1, 2]), "conv": rng.choice(convs)}
+
+
+# ---------------------------------------------------------------------------------------------
+# loaders / writers / references / bulk
+# ---------------------------------------------------------------------------------------------
+def _prefix_maps(rng, n, bijective=False):
+    P = ["a", "b", "A", "ab", "é", "c"]
+    Uu = ["u/", "v/", "u/a_", "ü#", "w:"]
+    out = [{}, {"a": "u/"}, {"b": "u/", "a": "u/"}, {"b": "u/", "a": "u/", "c": "v/"}, {"a": "u/", "b": "u/a_"}]
+    for _ in range(n):
+        keys = rng.sample(P, rng.choice([1, 2, 3, 4]))
+        out.append({k: rng.choice(Uu) for k in keys})
+    if bijective:
+        out = [m for m in out if len(set(m.values())) == len(m)]
+    return out
+
+
+@domain("api.upgrade_prefix_map")
+def _upm(seed, tier):
+    rng = random.Random(seed)
+    for pm in _prefix_maps(rng, 100 if tier == "quick" else 1000):
+        yield {"prefix_map": pm}
+
+
+@domain("C13.upgrade_always_valid_any_order")
+def _upm_order(seed, tier):
+    rng = random.Random(seed)
+    for pm in _prefix_maps(rng, 60 if tier == "quick" else 600):
+        ks = list(pm)
+        perms = list(itertools.permutations(ks)) if len(ks) <= 3 else [rng.sample(ks, len(ks)) for _ in range(6)]
+        for order in perms:
+            yield {"pm": pm, "order": list(order)}
+
+
+@domain("C13.prefix_map_denotes")
+def _pm_denotes(seed, tier):
+    rng = random.Random(seed)
+    for pm in _prefix_maps(rng, 100 if tier == "quick" else 1000):
+        yield {"pm": pm}
+
+
+@domain("C13.priority_map_denotes")
+def _prio(seed, tier):
+    rng = random.Random(seed)
+    Uu = ["u/", "v/", "u/a_", "ü#", "w:", "x/"]
+    for _ in range(100 if tier == "quick" else 1000):
+        keys = rng.sample(["a", "b", "é"], rng.choice([1, 2, 3]))
+        yield {"pm": {k: rng.sample(Uu, rng.choice([1, 2, 3])) for k in keys}}
+
+
+@domain("C13.reverse_map_denotes")
+def _rev(seed, tier):
+    rng = random.Random(seed)
+    Uu = ["u/", "v/", "u/a_", "ü#", "w:", "x/", "uu/"]
+    for _ in range(100 if tier == "quick" else 1000):
+        us = rng.sample(Uu, rng.choice([1, 2, 3, 4]))
+        rpm = {u: rng.choice(["a", "b"]) for u in us}
+        yield {"rpm": rpm, "order": rng.sample(us, len(us))}
+
+
+@domain("C13.jsonld_denotes")
+def _jsonld(seed, tier):
+    rng = random.Random(seed)
+    vals = ["u/", "v/", {"@prefix": True, "@id": "w/"}, {"@prefix": False, "@id": "x/"}, {"@id": "y/"}, 3, None, True, ["z/"], {"@prefix": "true", "@id": "q/"}]
+    keys = ["a", "b", "", "@vocab", "@base", "c", "@x"]
+    for _ in range(150 if tier == "quick" else 1500):
+        ks = rng.sample(keys, rng.choice([1, 2, 3, 4]))
+        yield {"ctx": {k: rng.choice(vals) for k in ks}}
+
+
+@domain("C13.epm_denotes")
+def _epm(seed, tier):
+    for specs in record_spec_lists(seed, 100 if tier == "quick" else 1000):
+        if any(s[0] in s[2] or s[1] in s[3] for s in specs):
+            continue
+        yield {"specs": specs}
+
+
+@domain("C13.path_str_object_agree")
+def _pathcases(seed, tier):
+    rng = random.Random(seed)
+    for pm in _prefix_maps(rng, 15 if tier == "quick" else 100, bijective=True):
+        yield {"pm": pm}
+
+
+@domain("C13.rdflib_denotes")
+def _rdfl(seed, tier):
+    rng = random.Random(seed)
+    for _ in range(15 if tier == "quick" else 100):
+        ks = rng.sample(["a", "b", "ex", "GO"], rng.choice([1, 2, 3]))
+        yield {"pm": {k: f"http://{k}.org/{rng.choice(['', 'x_', 'y#'])}" for k in ks}}
+
+
+@domain("api._record_to_dict")
+def _r2d(seed, tier):
+    for c in worlds.converters(40 if tier == "quick" else 300, seed):
+        for r in c.records:
+            yield {"record": r}
+
+
+SAFE_SPECS = [
+    ([("a", "http://u/", [], [], None)], ":"),
+    ([("a", "http://u/", ["b"], ["http://v#"], "^\\d{7}$"), ("c", "http://u/a_", [], [], None)], ":"),
+    ([("GO", "http://purl/GO_", ["go", "Go"], [], "^[A-Z]\\w+\\.\\d$"), ("é", "http://ü/", [], [], None)], ":"),
+    ([("a", "http://u/", [], [], "a\\\\b"), ("b", "x y", ["b c"], [], None)], ":"),
+    ([("a", "http://u/", [], [], ""), ("b\\d", "http://v/", [], [], None)], ":"),
+    ([("a", "http://u\\n/", [], [], None)], ":"),
+]
+
+
+def _safe_convs(seed, tier):
+    for s, d in SAFE_SPECS:
+        yield worlds.make_converter(s, d)
+    rng = random.Random(seed)
+    chars = "abAZ09_-.:/#\\{}^$*+?()|' é"
+    for _ in range(10 if tier == "quick" else 80):
+        def w(k):
+            return "".join(rng.choice(chars) for _ in range(rng.randint(1, k)))
+        specs = []
+        for i in range(rng.choice([1, 2])):
+            specs.append((f"p{i}" + w(3), f"http://h{i}/" + w(4), [f"s{i}" + w(2)] if rng.random() < 0.5 else [], [], rng.choice([None, w(6), "^\\d+$"])))
+        try:
+            yield worlds.make_converter(specs, ":")
+        except Exception:
+            continue
+
+
+@domain("C14.shacl_roundtrip")
+def _shacl(seed, tier):
+    for c in _safe_convs(seed, tier):
+        for inc in (False, True):
+            yield {"conv": c, "include_synonyms": inc}
+
+
+@domain("C14.tsv_roundtrip")
+def _tsv(seed, tier):
+    for c in _safe_convs(seed, tier):
+        yield {"conv": c}
+
+
+@domain("C14.epm_roundtrip")
+def _epm_rt(seed, tier):
+    for c in worlds.converters(20 if tier == "quick" else 150, seed):
+        yield {"conv": c}
+    for c in _safe_convs(seed, tier):
+        yield {"conv": c}
+    yield {"conv": worlds.make_converter([("a b", "u퟿/\x00", ["\n"], ["\t", "\""], "\\")], ":")}
+
+
+@domain("C14.jsonld_roundtrip")
+def _jsonld_rt(seed, tier):
+    for c in list(worlds.converters(20 if tier == "quick" else 150, seed)) + list(_safe_convs(seed, tier)):
+        for e in (False, True):
+            for inc in (False, True):
+                yield {"conv": c, "expand": e, "include_synonyms": inc}
+
+
+@domain("api.ReferenceTuple.from_curie")
+def _rtfc(seed, tier):
+    for case in _split_cases(seed, tier):
+        yield case
+
+
+STRS = ["", "a", "GO", "a:b", ":", "é", "x y", "1", "a\tb", "\"q\"", "a\nb", "a\rb", "::"]
+
+
+@domain("C15.print_parse")
+def _pp(seed, tier):
+    for p in STRS:
+        for i in STRS:
+            yield {"p": p, "i": i}
+
+
+@domain("C15.reference_classes")
+def _refcls(seed, tier):
+    rng = random.Random(seed)
+    pool = [s for s in STRS]
+    for _ in range(150 if tier == "quick" else 1500):
+        p, q = rng.choice(pool), rng.choice(pool)
+        i, j = rng.choice(pool), rng.choice(pool)
+        if rng.random() < 0.3:
+            q, j = p, i
+        yield {"p": p, "i": i, "q": q, "j": j, "name1": rng.choice(["n", "", "m"]), "name2": rng.choice(["n", "k"])}
+
+
+@domain("C15.converter_context")
+def _ctx(seed, tier):
+    for c in worlds.converters(15 if tier == "quick" else 100, seed):
+        for p in worlds.prefix_pool(c):
+            for i in ["1", "", "a:b"]:
+                yield {"conv": c, "p": p, "i": i}
+
+
+@domain("C15.triples_roundtrip")
+def _trip(seed, tier):
+    rng = random.Random(seed)
+    idents = ["1", "", "a:b", "x\ty", "\"q", "a\nb", "a\rb", "é", " ", "a\r\nb"]
+    prefs = ["a", "GO", "é", ""]
+    for _ in range(80 if tier == "quick" else 800):
+        k = rng.choice([3, 3, 6])
+        yield {"refs": [(rng.choice(prefs), rng.choice(idents)) for _ in range(k)]}
+
+
+@domain("C16.pd_elementwise")
+def _pd(seed, tier):
+    rng = random.Random(seed)
+    for c in worlds.converters(10 if tier == "quick" else 60, seed):
+        pool = worlds.mixed_pool(c) + worlds.prefix_pool(c)
+        for _ in range(6):
+            cells = [rng.choice(pool) for _ in range(rng.choice([0, 1, 3]))]
+            yield {"conv": c, "cells": cells, "op": rng.choice(["compress", "expand", "standardize_prefix", "standardize_curie", "standardize_uri"]),
+                   "strict": rng.random() < 0.3, "passthrough": rng.random() < 0.5, "ambiguous": rng.random() < 0.5, "target": rng.random() < 0.5}
+
+
+@domain("C16.file_elementwise_atomic")
+def _file(seed, tier):
+    rng = random.Random(seed)
+    for c in worlds.converters(10 if tier == "quick" else 60, seed):
+        pool = [s for s in worlds.mixed_pool(c) if "\n" not in s and "\r" not in s]
+        for _ in range(6):
+            ncol = rng.choice([1, 2, 3])
+            nrow = rng.choice([0, 1, 2, 4])
+            rows = [[rng.choice(pool) for _ in range(ncol)] for _ in range(nrow + 1)]
+            if rng.random() < 0.15 and rows:
+                rows[-1] = rows[-1][:1]          # a malformed (short) row
+            yield {"conv": c, "rows": rows, "op": rng.choice(["compress", "expand"]), "column": rng.randrange(ncol), "header": rng.random() < 0.6,
+                   "sep": rng.choice([None, None, ","]), "strict": rng.random() < 0.3, "passthrough": rng.random() < 0.5, "ambiguous": rng.random() < 0.5}
+
+
+# ---------------------------------------------------------------------------------------------
+# mapping service
+# ---------------------------------------------------------------------------------------------
+def accept_headers(rng, n):
+    types = ["application/sparql-results+json", "application/sparql-results+xml", "application/sparql-results+csv",
+             "application/json", "text/json", "application/xml", "text/xml", "text/csv", "text/html", "*/*", "image/png"]
+    qs = [None, "0.5", "0.9", "0.1"]
+    ows = ["", " "]
+    out = [None, "", "text/html", "application/json", "text/html, application/json", "text/html;q=0.9,application/json;q=0.5",
+           "text/csv ; q=0.5 , application/json ; q=0.9", "text/html,text/xml", "application/json;q=0.5, text/csv;q=0.9", " application/json"]
+    for _ in range(n):
+        k = rng.choice([1, 2, 3])
+        els = []
+        used = set()
+        for _ in range(k):
+            t = rng.choice(types)
+            if t in used:
+                continue
+            used.add(t)
+            q = rng.choice(qs)
+            a, b, c = rng.choice(ows), rng.choice(ows), rng.choice(ows)
+            els.append(a + t + ((b + ";" + c + "q=" + q) if q else "") + rng.choice(ows))
+        out.append(",".join(els))
+    return out
+
+
+@domain("mapping_service.utils.handle_header")
+def _hh(seed, tier):
+    rng = random.Random(seed)
+    for h in accept_headers(rng, 300 if tier == "quick" else 3000):
+        yield {"header": h, "default": "application/sparql-results+xml"}
+
+
+@domain("mapping_service.utils._handle_part")
+def _hp(seed, tier):
+    rng = random.Random(seed)
+    for h in accept_headers(rng, 200 if tier == "quick" else 2000):
+        if h:
+            for part in h.split(","):
+                yield {"part": part}
+
+
+def _ms_convs(seed, tier):
+    specs = [
+        [("GO", "http://purl.obolibrary.org/obo/GO_", ["go"], ["http://amigo.geneontology.org/amigo/term/GO:", "https://identifiers.org/GO:"], None),
+         ("CHEBI", "http://purl.obolibrary.org/obo/CHEBI_", [], ["https://identifiers.org/chebi/"], None)],
+        [("a", "http://u/", [], ["http://v#", "not a valid uri <>"], None)],
+        [("a", "http://u/", ["b"], [], None), ("c", "http://u/a_", [], ["http://w/ x"], None)],
+    ]
+    for s in specs:
+        yield worlds.make_converter(s, ":")
+
+
+@domain("mapping_service.api.MappingServiceGraph._expand_pair_all")
+def _ms_expand(seed, tier):
+    from curies.mapping_service.api import MappingServiceGraph
+    for c in _ms_convs(seed, tier):
+        g = MappingServiceGraph(converter=c)
+        for u in worlds.uri_pool(c):
+            yield {"self": g, "uri_in": u}
+
+
+@domain("C18.triples_dispatch")
+def _ms_triples(seed, tier):
+    for c in _ms_convs(seed, tier):
+        for u in worlds.uri_pool(c)[:25]:
+            for pred in ("http://www.w3.org/2002/07/owl#sameAs", "http://www.w3.org/2004/02/skos/core#exactMatch", "http://x/p"):
+                for side in ("s", "o", "both", "none"):
+                    for predicates in ([], ["http://www.w3.org/2004/02/skos/core#exactMatch", "http://www.w3.org/2002/07/owl#sameAs"]):
+                        yield {"conv": c, "u": u, "pred": pred, "side": side, "predicates": predicates}
+
+
+@domain("C18.sparql_end_to_end")
+def _ms_sparql(seed, tier):
+    rng = random.Random(seed)
+    fmts = ["application/json", "application/sparql-results+json", "text/html, application/json", "text/csv;q=0.1, application/json;q=0.9", "text/xml"]
+    for c in _ms_convs(seed, tier):
+        pool = [u for u in worlds.uri_pool(c) if u.startswith("http") and " " not in u and "\n" not in u]
+        for u in (pool if tier == "thorough" else rng.sample(pool, min(6, len(pool)))):
+            for f in (fmts if tier == "thorough" else rng.sample(fmts, 2)):
+                yield {"conv": c, "u": u, "fmt": f}
